@@ -67,6 +67,9 @@ func progLine(s scn) string {
 	if s.TmpMode == "explicit" {
 		optdir = "R/tmp2"
 	}
+	if s.Pre > 0 && s.Writer == "replace-atomic" {
+		return "" // the mode comes from whatever the interrupted earlier run left at the destination
+	}
 	switch s.Writer {
 	case "rio-writefile":
 		return fmt.Sprintf("prog writefile tmpdir=%s mode=%s", tmpdir, s.Perm)
@@ -424,6 +427,9 @@ func monitor(c hxlib.Case, outs []string) (vs []hxlib.Violation) {
 	if s.K > 0 {
 		where = fmt.Sprintf("process killed before mutating call %d", s.K)
 	}
+	if s.Pre > 0 {
+		where += fmt.Sprintf(" (after an earlier run of the same operation killed before its call %d)", s.Pre)
+	}
 	for i, l := range c.Lines {
 		o := outs[i]
 		f := strings.Fields(l)
@@ -616,6 +622,11 @@ func generate(r *hxlib.Run, emit func(hxlib.Case)) {
 		r.Count("old:" + s.Old)
 		r.Count("tmp:" + s.TmpMode)
 		r.Count("fail:" + s.Fail)
+		if s.Pre > 0 {
+			r.Count("history:after-interrupted-run")
+		} else {
+			r.Count("history:fresh")
+		}
 		r.Count("newlen:" + sizeClass(s.NewLen))
 		if ro.res != nil {
 			if ro.res.Killed {
